@@ -131,6 +131,17 @@ def gabriel_graph_by_witness(d2):
     return g
 
 
+def qs_next_vectorised(idx, nearest, probs, d2, cutoff):
+    # the closest higher-weight point (first index on ties) if it lies inside the cut-off; otherwise the nearest
+    # neighbour when that one has higher weight; else idx itself
+    higher = np.asarray(probs) > probs[idx]
+    dist_higher = np.where(higher, d2[idx], np.inf)
+    closest = int(np.argmin(dist_higher))
+    if dist_higher[closest] < cutoff:
+        return closest
+    return nearest if higher[nearest] else idx
+
+
 def qs_next_sorted_scan(idx, nearest, probs, d2, cutoff):
     # candidates visited by increasing distance (ties by increasing index): the first one of higher
     # weight inside the cut-off is the nearest such point
